@@ -6,9 +6,12 @@ pub mod c02;
 pub mod c03;
 pub mod c05;
 pub mod c08;
+pub mod c09;
 pub mod c10;
 pub mod c11;
+pub mod c12;
 pub mod c13;
+pub mod c14;
 pub mod exec;
 pub mod synt;
 
@@ -18,6 +21,9 @@ pub fn build(cfg: &Cfg) -> (Vec<Box<dyn Phase>>, Result<String, String>) {
         "C05" => (c05::phases(cfg), c05::selfcheck()),
         "C08" => (c08::phases(cfg), c08::selfcheck()),
         "C11" => (c11::phases(cfg), c11::selfcheck()),
+        "C09" => (c09::phases(cfg), c09::selfcheck()),
+        "C12" => (c12::phases(cfg), c12::selfcheck()),
+        "C14" => (c14::phases(cfg), c14::selfcheck()),
         "C13" => (c13::phases(cfg), c13::selfcheck()),
         "C03" => (c03::phases(cfg), c03::selfcheck()),
         "C10" => (c10::phases(cfg), c10::selfcheck()),
